@@ -2,3 +2,18 @@ COMMON_ASSUME = [
     "bounded-exhaustive: nothing outside the enumerated scopes/bounds is claimed",
     "reference models in /verif/harness are the trusted base",
 ]
+
+
+def twin_job(check_id, share=0.15):
+    """Concurrent-twin scenarios (harness/ctwin) of a property: one job of the instrumented sched-twin binary."""
+    return {"variant": "sched-twin", "id": check_id, "no_ulimit": True, "share": share,
+            "env": {"GORACE": "log_path={WORK}/race/" + check_id.lower() + " halt_on_error=0 history_size=2"}}
+
+
+TWIN_TECHNIQUE = " + stateless exploration of pairs of concurrent calls under the controlled scheduler (ThreadSanitizer per schedule)"
+
+
+def twin_text(what):
+    return (" Concurrent twins: " + what + " — every pair A || B in two goroutines (each call twice per goroutine) on the build-time "
+            "instrumented code under the controlled scheduler: every interleaving at synchronisation operations up to preemption bound 2 "
+            "(thorough 3), ThreadSanitizer attributed per schedule; each result must equal the result of the same call made alone.")
